@@ -58,6 +58,9 @@ def main():
   ap.add_argument("--recheck", action="store_true",
                   help="keep the recorded confirmation steps (patch unchanged) and only "
                        "re-run the detection by the registered checks on /repo")
+  ap.add_argument("--no-detect", action="store_true",
+                  help="only the confirmation steps in the scratch VM (can run in parallel "
+                       "for several properties); run --recheck afterwards for the detection")
   args = ap.parse_args()
   src = args.src or f"/tmp/mut/{args.prop}/MUTANTS/{args.m}"
   sid = args.sid or f"{args.prop}-{args.m}"
@@ -124,6 +127,11 @@ def main():
     shutil.rmtree(os.path.join(vm, "MUTANTS"), ignore_errors=True)
   confirmed = rc0 == 0 and rct == 0 and rc1 != 0
   meta["confirmed"] = confirmed
+  if args.no_detect:
+    json.dump(meta, open(os.path.join(dst, "meta.json"), "w"), indent=1)
+    print(json.dumps({"id": sid, "confirmed": confirmed, "steps": {
+        k: (v.get("exit") if isinstance(v, dict) else v) for k, v in meta["steps"].items()}}))
+    return 0
   return detect(args, meta, patch, dst)
 
 
